@@ -255,12 +255,7 @@ def d2_single_reader(ctx, reader):
     ctx.floor('C18 descriptor consumers', len(readers), 2)
     # the property that exposes the descriptor goes through the reader
     c = ctx.repo.cls('Array')
-    p = c.methods.get('_arrayinfo')
-    if p is not None and p.is_property:
-        ok = any(cal is reader for _, cal in ctx.E.callees(p))
-        ctx.decide(ok, 'R-OWN', 'D2', p, None, 'arrayinfo-via-reader',
-                   'Array._arrayinfo is computed by the validating reader on every access',
-                   detail='_arrayinfo no longer calls the validating reader')
+    arrayinfo_always_fresh(ctx, 'D2', reader)
     # every function of Array that subscripts a descriptor dict got it from the reader
     users = 0
     for f in c.all_funcs():
@@ -278,6 +273,33 @@ def d2_single_reader(ctx, reader):
                            f'{f.qualname} takes descriptor field {n.slice.value!r} from the validated dictionary',
                            detail='descriptor field does not come from the validating reader')
     ctx.floor('C18 descriptor field uses in Array', users, 3)
+
+
+def arrayinfo_always_fresh(ctx, clause, reader=None):
+    """Array._arrayinfo (a property) returns the validating reader's result on EVERY path: no return hands out something
+    remembered in the handle (a copy kept while the array is open goes stale as soon as the length is committed: the
+    README is then generated from the old length).  Shared with C08."""
+    c = ctx.repo.cls('Array')
+    if reader is None:
+        reader = c.methods.get('_read_arraydescr')
+    p = c.methods.get('_arrayinfo')
+    if p is None or not p.is_property or reader is None:
+        return
+    rcalls = [n for n, cal in ctx.E.callees(p) if cal is reader and isinstance(n, ast.Call)]
+    rets = [r for r in own_nodes(p.node) if isinstance(r, ast.Return)]
+    stale = []
+    for r in rets:
+        if r.value is None:
+            stale.append(r)
+            continue
+        vals = [r.value] + ([v for v, _ in defs_of(p.node, r.value.id)] if isinstance(r.value, ast.Name) else [])
+        if not any(any(x is rc for x in ast.walk(v)) for v in vals for rc in rcalls):
+            stale.append(r)
+    ctx.decide(bool(rcalls) and bool(rets) and not stale, 'R-OWN', clause, p, stale[0] if stale else None, 'arrayinfo-via-reader',
+               'Array._arrayinfo is computed by the validating reader on every access (every return is the reader\'s result)',
+               detail=('_arrayinfo no longer calls the validating reader' if not rcalls or not stale else
+                       f'`{norm(stale[0])[:60]}` returns remembered content instead of reading the descriptor: after a length '
+                       f'commit inside an open context the README and read code are generated from the old description'))
 
 
 def d5_open(ctx):
